@@ -1,5 +1,6 @@
 import Thanos.Model.Hashring
 import Thanos.Lemmas.Hashring
+import Thanos.Model.RingMetrics
 import Thanos.Generated.Facts
 /-
   C19 — Building a hashring from any configuration terminates.
@@ -217,6 +218,144 @@ theorem f19_build_repaired : build true f19Eps 4 = .stuck := by
   have hl : ¬ f19Eps.length < 4 := by decide
   simp only [build, hl, if_false, f19_mkRing, hz]
   decide
+
+/-! ### loading a configuration: metrics registration (known findings)
+
+  Outside the ring algorithm, `NewMultiHashring` can still fail to "produce a hashring or report
+  an error": the per-hashring metrics of shuffle sharding are registered with `promauto`
+  (`MustRegister`).  Spec-level model: `Thanos.RingMetrics`. -/
+
+end Thanos.Hashring
+
+namespace Thanos.RingMetrics
+
+/-- C19 for the loader, at full strength: loading a configuration on a fresh registerer never panics -/
+def C19_load_full : Prop := ∀ cfg, load [] cfg ≠ .panic
+
+/-- false: two shuffle sharded hashrings without a name (known finding load-panic-duplicate-metrics) -/
+theorem C19_load_full_false : ¬ C19_load_full := by
+  intro h
+  exact h [("", true), ("", true)] (by decide)
+
+theorem load_ne_panic_of_fresh : ∀ (cfg : List (String × Bool)) (reg : Registry),
+    ((cfg.filter (·.2)).map (·.1)).Nodup → (∀ c ∈ cfg, c.2 = true → c.1 ∉ reg) → load reg cfg ≠ .panic
+  | [], _, _, _ => by simp [load]
+  | (name, sharded) :: rest, reg, hn, hf => by
+    unfold load
+    cases sharded with
+    | false =>
+      simp only [Bool.false_eq_true, if_false]
+      exact load_ne_panic_of_fresh rest reg (by simpa using hn) (fun c hc => hf c (by simp [hc]))
+    | true =>
+      have h1 : reg.contains name = false := by
+        have := hf (name, true) (by simp) rfl
+        simpa using this
+      simp only [if_true, h1, Bool.false_eq_true, if_false]
+      have hn' : name ∉ (rest.filter (·.2)).map (·.1) ∧ ((rest.filter (·.2)).map (·.1)).Nodup := by
+        simpa using hn
+      apply load_ne_panic_of_fresh rest (name :: reg) hn'.2
+      intro c hc hs hmem
+      simp only [List.mem_cons] at hmem
+      rcases hmem with h | h
+      · apply hn'.1
+        simp only [List.mem_map, List.mem_filter]
+        exact ⟨c, ⟨hc, hs⟩, h⟩
+      · exact hf c (by simp [hc]) hs h
+
+/-- it holds exactly when the shuffle sharded hashrings have pairwise different names -/
+theorem C19_load_partial (cfg : List (String × Bool)) (h : ((cfg.filter (·.2)).map (·.1)).Nodup) :
+    load [] cfg ≠ .panic :=
+  load_ne_panic_of_fresh cfg [] h (by simp)
+
+theorem load_mono : ∀ (cfg : List (String × Bool)) (reg reg' : Registry), load reg cfg = .ok reg' →
+    ∀ n, (n ∈ reg ∨ (n, true) ∈ cfg) → n ∈ reg'
+  | [], reg, reg', h, n, hn => by
+    simp only [load, Load.ok.injEq] at h; subst h
+    simpa using hn
+  | (name, sharded) :: rest, reg, reg', h, n, hn => by
+    unfold load at h
+    cases sharded with
+    | false =>
+      simp only [Bool.false_eq_true, if_false] at h
+      apply load_mono rest reg reg' h n
+      rcases hn with hn | hn
+      · exact Or.inl hn
+      · simp at hn; exact Or.inr hn
+    | true =>
+      simp only [if_true] at h
+      by_cases hc : reg.contains name = true
+      · have hc' : name ∈ reg := by simpa using hc
+        simp [hc'] at h
+      · simp only [hc, Bool.false_eq_true, if_false] at h
+        apply load_mono rest (name :: reg) reg' h n
+        rcases hn with hn | hn
+        · exact Or.inl (by simp [hn])
+        · simp only [List.mem_cons, Prod.mk.injEq, and_true] at hn
+          rcases hn with hn | hn
+          · exact Or.inl (by simp [hn])
+          · exact Or.inr hn
+
+theorem load_panic_of_registered : ∀ (cfg : List (String × Bool)) (reg : Registry) (n : String),
+    (n, true) ∈ cfg → n ∈ reg → load reg cfg = .panic
+  | [], _, _, h, _ => by simp at h
+  | (name, sharded) :: rest, reg, n, h, hr => by
+    unfold load
+    simp only [List.mem_cons, Prod.mk.injEq] at h
+    cases sharded with
+    | false =>
+      simp only [Bool.false_eq_true, if_false]
+      rcases h with ⟨_, h⟩ | h
+      · cases h
+      · exact load_panic_of_registered rest reg n h hr
+    | true =>
+      simp only [if_true]
+      by_cases hc : reg.contains name = true
+      · have hc' : name ∈ reg := by simpa using hc
+        simp [hc']
+      · simp only [hc, Bool.false_eq_true, if_false]
+        rcases h with ⟨h, _⟩ | h
+        · subst h; simp at hc; exact absurd hr hc
+        · exact load_panic_of_registered rest (name :: reg) n h (by simp [hr])
+
+/-- **Known finding reload-panic-duplicate-metrics, in general.**  Whatever the configuration: if it
+    loads and contains a shuffle sharded hashring, loading it again with the same registerer —
+    the first step of every hashring file update — panics. -/
+theorem C19_reload_panics (cfg : List (String × Bool)) (reg : Registry) (n : String)
+    (hs : (n, true) ∈ cfg) (h : load [] cfg = .ok reg) : update reg cfg cfg = .panic := by
+  have hm : n ∈ reg := load_mono cfg [] reg h n (Or.inr hs)
+  simp [update, load_panic_of_registered cfg reg n hs hm]
+
+/-- without shuffle sharding an update never panics -/
+theorem C19_reload_partial (old new : List (String × Bool)) (reg : Registry)
+    (h : ∀ c ∈ new, c.2 = false) : update reg old new ≠ .panic := by
+  have : load reg new ≠ .panic := by
+    apply load_ne_panic_of_fresh
+    · have : new.filter (·.2) = [] := by
+        rw [List.filter_eq_nil_iff]
+        intro c hc; simp [h c hc]
+      simp [this]
+    · intro c hc hs; rw [h c hc] at hs; cases hs
+  unfold update
+  cases hl : load reg new with
+  | panic => exact absurd hl this
+  | ok r => simp
+
+/-- the collectors are registered with promauto (MustRegister) -/
+theorem C19_fact_metrics_registration :
+    Thanos.Facts.shuffleShardMetricsRegistration = ["promauto.With", "promauto.With", "promauto.With", "promauto.With", "promauto.With"] := by
+  decide
+
+/-- a file update builds the new hashring first; the handler closes the old one when the new one is installed -/
+theorem C19_fact_reload_order :
+    Thanos.Facts.hashringReloadOrder = ["receive.NewMultiHashring", "webHandler.Hashring"] ∧
+      Thanos.Facts.handlerHashringSwap = ["h.hashring.Close"] := by decide
+
+example : update ["h"] [("h", true)] [("h", true)] = .panic := by decide
+example : load [] [("a", true), ("", false), ("b", true)] = .ok ["b", "a"] := by decide
+
+end Thanos.RingMetrics
+
+namespace Thanos.Hashring
 
 /-! ### regenerated facts: the source has the loop shape the model transliterates -/
 
